@@ -34,6 +34,7 @@ type Field struct {
 	Name string
 	Type TypeID
 	Emb  bool `json:",omitempty"` // embedded field
+	Tag  string `json:",omitempty"` // struct tag (without back quotes), e.g. wire:"-"
 }
 
 type Type struct {
